@@ -1,8 +1,9 @@
 (* C18 - File import and export are faithful.  Proofs in theories/Io/CsvProofs.v and theories/Io/Tiers.v.
    (partial: the textgrid / pympi / RTTM parsers and float printing are oracles; what is proved is the CSV layer - Python's csv module in the excel
    dialect, modelled character by character and compared with it on every run - and the mapping from parsed tiers / rows to units.) *)
-From Coq Require Import List Arith ZArith QArith Bool.
+From Coq Require Import String List Arith ZArith QArith Bool.
 From PGA Require Import Io.Csv Io.CsvProofs Io.Tiers.
+From PGAprops Require Import ShapesGen.
 Import ListNotations.
 Local Close Scope Q_scope.
 
@@ -47,3 +48,18 @@ Proof. exact (elan_count tiers sel use_tier). Qed.
 Example C18_example :
   read 44 (wfile 44 [[[34; 97]; []; [44; 10]; [13]]; [[120]; [121]]]) = [[[34; 97]; []; [44; 10]; [13]]; [[120]; [121]]].
 Proof. exact csv_example. Qed.
+
+(* ---------------------------------------------------------------------------------------------------------------------------------
+   Tie to the source (re-proved on every run against genprops/ShapesGen.v, read from the CURRENT sources by harness/gen_shapes.py): the bodies
+   below, as normalised text, are the ones the model follows statement by statement. *)
+Fixpoint lookup_src (k : string) (l : list (string * string)) : option string :=
+  match l with [] => None | (a, b) :: r => if String.eqb k a then Some b else lookup_src k r end.
+(* column order annotator, label, start, end in both directions; newline='' in both; zero-length rows discarded or re-raised as requested; one add per RTTM annotation; TextGrid: empty marks skipped, tier filter, tier name or mark as label; ELAN: tier filter, tier name or value as label *)
+Theorem C18_src_readers_and_writer :
+  lookup_src "classmethod from_csv" continuum_src = Some "(cls, path, discard_invalid_rows=True, delimiter=',') if isinstance(path, str): [path = Path(path)]; continuum = cls(); with open(path, newline='') as csv_file: [reader = csv.reader(csv_file, delimiter=delimiter); for row in reader: [seg = Segment(float(row[2]), float(row[3])); try: [continuum.add(row[0], seg, row[1])] except ValueError: [if discard_invalid_rows: [] else: [raise e]]]]; return continuum"%string /\
+  lookup_src "to_csv" continuum_src = Some "(self, path, delimiter=',') if isinstance(path, str): [path = Path(path)]; with open(path, 'w', newline='') as csv_file: [writer = csv.writer(csv_file, delimiter=delimiter); for (annotator, unit) in self: [writer.writerow([annotator, unit.annotation, unit.segment.start, unit.segment.end])]]"%string /\
+  lookup_src "classmethod from_rttm" continuum_src = Some "(cls, path) annotations = load_rttm(str(path)); continuum = cls(); for (uri, annot) in annotations.items(): [continuum.add_annotation(uri, annot)]; return continuum"%string /\
+  lookup_src "add_textgrid" continuum_src = Some "(self, annotator, tg_path, selected_tiers=None, use_tier_as_annotation=False) from textgrid import TextGrid, IntervalTier; tg = TextGrid.fromFile(str(tg_path)); for tier_name in tg.getNames(): [if selected_tiers is not None and tier_name not in selected_tiers: [continue]; tier: IntervalTier = tg.getFirst(tier_name); for interval in tier: [if not interval.mark: [continue]; if use_tier_as_annotation: [self.add(annotator, Segment(interval.minTime, interval.maxTime), tier_name)] else: [self.add(annotator, Segment(interval.minTime, interval.maxTime), interval.mark)]]]"%string /\
+  lookup_src "add_elan" continuum_src = Some "(self, annotator, eaf_path, selected_tiers=None, use_tier_as_annotation=False) from pympi import Eaf; eaf = Eaf(eaf_path); for tier_name in eaf.get_tier_names(): [if selected_tiers is not None and tier_name not in selected_tiers: [continue]; for (start, end, value) in eaf.get_annotation_data_for_tier(tier_name): [if use_tier_as_annotation: [self.add(annotator, Segment(start, end), tier_name)] else: [self.add(annotator, Segment(start, end), value)]]]"%string /\
+  lookup_src "add_annotation" continuum_src = Some "(self, annotator, annotation) for (segment, _, label) in annotation.itertracks(yield_label=True): [self.add(annotator, segment, label)]"%string.
+Proof. repeat split. Qed.
